@@ -105,6 +105,11 @@ def observe_C18(L, replay):
 def observe_C12(L, replay):
     schema = schema_for(L, replay)
     doc = L.Node.from_json(schema, replay["doc"])
+    if replay.get("kind") in ("drop_point-fails", "insert_point-fails") and isinstance(replay.get("slice"), dict):
+        # the follow-up of drop_point: the slice placed at the returned position
+        sl = L.Slice.from_json(schema, replay["slice"])
+        at = replay.get("point", replay.get("pos"))
+        return _safe(lambda: {"doc": L.Transform(doc).replace(at, at, sl).doc.to_json()})
 
     def go():
         rng_ = doc.resolve(replay["pos"]).block_range(doc.resolve(replay["to"]))
